@@ -569,7 +569,7 @@ func classMatch(c *Class, r rune, lowerOnly bool) bool {
 				}
 			default:
 				// member iff some rune with the same case folding is in the class
-				if unicode.Is(rt, r) || unicode.Is(rt, unicode.ToLower(r)) || unicode.Is(rt, unicode.ToUpper(r)) || unicode.Is(rt, unicode.ToTitle(r)) {
+				if unicode.Is(rt, r) || unicode.Is(rt, unicode.ToLower(r)) || unicode.Is(rt, unicode.ToUpper(r)) {
 					in = true
 				}
 			}
